@@ -265,25 +265,30 @@ def listAggOver {β : Type} (cells : Nat → Val) (agg : List Val → β) (p : L
   p.map fun idx => (idx, agg (p.map cells))
 
 /-- Analyze's rewrite of `COUNT(*)`: the header field is registered under the identifier of the call
-    as written (`FormatFieldIdentifier(fn)` at the top of Analyze), then `fn.Args[0]` is overwritten
-    IN PLACE with the literal 1 — the slice is shared with the caller's expression — and the select
-    clause afterwards looks the (now different) expression up in the header. -/
+    as written (`FormatFieldIdentifier(fn)` at the top of Analyze); the literal 1 that replaces `*` is
+    written into a COPY of the argument list (since fix 02f8662 — before it the shared slice was
+    overwritten and the select clause looked for `COUNT(1) OVER (…)`: pre-finding F8), so the caller's
+    expression is unchanged when the select clause looks it up in the header. -/
 inductive AggArg
   | allColumns
   | int1
   | field (c : Nat)
   deriving DecidableEq, Repr
 
-/-- (identifier registered in the header, argument the caller's expression holds afterwards) -/
-def analyzeArg : AggArg → AggArg × AggArg
-  | .allColumns => (.allColumns, .int1)
-  | a => (a, a)
+structure AnalyzedArg where
+  registered : AggArg     -- identifier under which the new column is registered
+  evaluated : AggArg      -- what windowValues evaluates on every record of the frame
+  callerHolds : AggArg    -- what the caller's expression holds after Analyze returned
 
-/-- `view.Header.ContainsObject(expr)` after Analyze; `false` ⇒ the expression is evaluated as an
-    ordinary value ⇒ "analytic function count is only available in select clause or order by clause" -/
+def analyzeArg : AggArg → AnalyzedArg
+  | .allColumns => ⟨.allColumns, .int1, .allColumns⟩
+  | a => ⟨a, a, a⟩
+
+/-- `view.Header.ContainsObject(expr)` in the select clause after Analyze; `false` would mean the
+    expression is evaluated as an ordinary value ⇒ "analytic function count is only available in
+    select clause or order by clause" -/
 def selectFindsColumn (a : AggArg) : Bool :=
-  match analyzeArg a with
-  | (registered, now) => decide (registered = now)
+  decide ((analyzeArg a).registered = (analyzeArg a).callerHolds)
 
 /-! ### Analyze: all partitions, result column -/
 
